@@ -14,6 +14,7 @@ import (
 	"strings"
 
 	"github.com/deadsy/sdfx/render"
+	"github.com/deadsy/sdfx/sdf"
 	v2 "github.com/deadsy/sdfx/vec/v2"
 	. "verifharness/kit"
 )
@@ -46,6 +47,10 @@ type c20Corpus struct {
 	} `json:"equals"`
 	Points [][][2]float64 `json:"points"`
 }
+
+var dcases = &Cases{Kind: "delaunay", Imports: "From Sdfx Require Import Algo.DelaunayCorr.\nOpen Scope float_scope.", Type: "dcase", Fn: "dmismatches", PerShard: 40}
+var pcases = &Cases{Kind: "incircle", Imports: "From Sdfx Require Import Algo.DelaunayCorr.\nOpen Scope float_scope.", Type: "pcase", Fn: "pmismatches", PerShard: 1500}
+var did = 0
 
 func checkC20(c *Ctx, r *Report) error {
 	rng := NewRng(c.Seed)
@@ -170,8 +175,36 @@ func checkC20(c *Ctx, r *Report) error {
 		}
 		delaunayCase(r, stratum, vs)
 	}
+	// InCircumcircle / Circumcenter: predicate cases incl. the horizontal-edge branches
+	np := TierN(c.Tier, 1500, 30000, 3000)
+	for k := 0; k < np; k++ {
+		pt := func() v2.Vec { return v2.Vec{X: rng.Dyadic(8, 6), Y: rng.Dyadic(8, 6)} }
+		a, b, cc, p := pt(), pt(), pt(), pt()
+		switch k % 6 {
+		case 0:
+			b.Y = a.Y // y1 == y2 branch
+		case 1:
+			cc.Y = b.Y // y2 == y3 branch
+		case 2:
+			b.Y, cc.Y = a.Y, a.Y // coincident error
+		case 3:
+			a, b, cc, p = v2.Vec{X: rng.Uniform(-5, 5), Y: rng.Uniform(-5, 5)}, v2.Vec{X: rng.Uniform(-5, 5), Y: rng.Uniform(-5, 5)}, v2.Vec{X: rng.Uniform(-5, 5), Y: rng.Uniform(-5, 5)}, v2.Vec{X: rng.Uniform(-9, 9), Y: rng.Uniform(-9, 9)}
+		}
+		did++
+		t := sdf.Triangle2{a, b, cc}
+		in, dn := t.InCircumcircle(p)
+		pcases.Add(fmt.Sprintf("(%d%%N, (%s,%s), (%s,%s), (%s,%s), (%s,%s), %s, %s)", did, CF(a.X), CF(a.Y), CF(b.X), CF(b.Y), CF(cc.X), CF(cc.Y), CF(p.X), CF(p.Y), CB(in), CB(dn)))
+		r.Case("incircle", fmt.Sprintf("ic:%x,%x,%x,%x,%x,%x,%x,%x", a.X, a.Y, b.X, b.Y, cc.X, cc.Y, p.X, p.Y), true)
+	}
+	if err := dcases.Write(c.Out); err != nil {
+		return err
+	}
+	if err := pcases.Write(c.Out); err != nil {
+		return err
+	}
 	r.Rule = "equals cases: random index-triple sets (sizes 0..40, few distinct vertex ids so that leading indices collide) against a randomly reordered and per-triple rotated copy, or a copy with one winding flipped / one index changed; non-trivial = at least 2 triangles, distinct by (a,b). delaunay cases: random dyadic point sets (3..200 points, offset and clustered strata) checked with exact rational predicates; non-trivial = robustly in general position (relative orientation/incircle margins > 1e-7) so the exact answer is well defined; distinct by point list."
 	r.Trusted = append(r.Trusted, "hand model coq/Algo/Canon.v of TriangleI.Canonical/Less/Equals tied by differential execution (cases_canon_*.v)",
+		"hand model coq/Algo/Delaunay.v of Delaunay2d / superTriangle / InCircumcircle / Circumcenter at primitive floats: the returned triangle list (order included) and the predicate values compared exactly (cases_delaunay_*.v, cases_incircle_*.v)",
 		"exact rational Delaunay oracles (math/big) in harness/cmd/vcheck/c20.go")
 	r.Assumptions = append(r.Assumptions, "whole-triangulation correctness (hull coverage, 2n-2-h, fast = slow) is searched with exact oracles, not proved (C20 partial)",
 		"point sets that are not robustly in general position are counted but not asserted")
@@ -305,6 +338,18 @@ func delaunayCase(r *Report, stratum string, in v2.VecSet) {
 	}
 	if r.Evaluations%53 == 0 {
 		r.Sample(map[string]interface{}{"kind": "delaunay", "points": ptsList(in), "triangles": len(ts)})
+	}
+	if n >= 2 && n <= 45 {
+		// the whole Bowyer-Watson run against the Gallina model (vs is now x-sorted, as the algorithm saw it)
+		did++
+		var ps, tl []string
+		for _, p := range vs {
+			ps = append(ps, fmt.Sprintf("(%s,%s)", CF(p.X), CF(p.Y)))
+		}
+		for _, t := range ts {
+			tl = append(tl, fmt.Sprintf("(%d,%d,%d)%%Z", t[0], t[1], t[2]))
+		}
+		dcases.Add(fmt.Sprintf("(%d%%N, %s, %s)", did, CList(ps), CList(tl)))
 	}
 	mn, mx := vs.Min(), vs.Max()
 	L := math.Max(mx.X-mn.X, mx.Y-mn.Y)
